@@ -192,11 +192,16 @@ fn coq_hchunks(cs: &[Vec<Row>]) -> String {
 }
 /// premise of the DISTINCT model: the 64-bit hashes are injective on the values of this run.
 /// 0 = injective, 1 = the only collision is NULL / FALSE (finding C17-K8), 2 = another collision
+/// Row keys are compared column by column (RowKey = the vector of per-column hashes), so only a
+/// collision between two values of the SAME column matters (Int64(0) and Float64(0.0) hash alike
+/// but never share a column of a generated table).
 fn hash_class(rows: &[Row]) -> u8 {
-    let mut seen: std::collections::HashMap<u64, V> = std::collections::HashMap::new();
+    let ncols = rows.iter().map(|r| r.len()).max().unwrap_or(0);
     let mut class = 0;
-    for r in rows {
-        for v in r {
+    for c in 0..ncols {
+        let mut seen: std::collections::HashMap<u64, V> = std::collections::HashMap::new();
+        for r in rows {
+            let Some(v) = r.get(c) else { continue };
             let h = hash_value(&v.val());
             if let Some(w) = seen.get(&h) {
                 if w != v {
